@@ -792,6 +792,15 @@ func checkScannerNotAbandoned(c *Ctx, r *Rec, info *types.Info, st *scanTables, 
 				between, w := eg.exists(pathQuery{from: pt,
 					stop: func(n ast.Node) bool { return n == ast.Node(deferStmt) },
 					goalNode: func(n ast.Node) bool {
+						if ds, isDefer := n.(*ast.DeferStmt); isDefer {
+							// registering a deferred function runs nothing but the evaluation of its arguments
+							for _, a := range ds.Call.Args {
+								if mayPanicCall(info, a) != nil {
+									return true
+								}
+							}
+							return false
+						}
 						return n != ast.Node(deferStmt) && mayPanicCall(info, n) != nil && !containsNode(n, start)
 					}})
 				if between {
